@@ -210,6 +210,58 @@ def make_stream(rng, kind, n):
 P_CHOICES = [0.0, 0.25, 0.5, 0.9, 1.0, 0.1, 1.0 / 3.0, 0.75, 0.99, 0.01]
 
 
+def judge_stream_case(J, c, p, xs, marks, kind, recs):
+    for r in recs:
+        if r.kind in ('p', 'e', 'd'):
+            for R, P in ((J.r5, 'C05'), (J.r15, 'C15')):
+                R.violation(P, 'Quantile:%s' % ('panic' if r.kind == 'p' else 'harness'),
+                            'Quantile(p=%r) %s stream: op %d -> %s %s' % (p, kind, r.op, r.kind, r.rest), c, J.variant)
+    o_by = {r.op: r for r in recs if r.kind == 'o'}
+    s_by = {r.op: r for r in recs if r.kind == 's'}
+    prev = None   # (j, State)
+    observed = []
+    mn = mx = None
+    upto = 0
+    changed_after5 = False
+    for opi, j in marks:
+        o, s = o_by.get(opi), s_by.get(opi)
+        if o is None or s is None:
+            continue
+        for x in xs[upto:j]:
+            mn = x if mn is None else min(mn, x)
+            mx = x if mx is None else max(mx, x)
+        upto = j
+        ctx = '(%s stream, after %d observations)' % (kind, j)
+        J.invariants(p, o.kv, s.kv, j, mn, mx, c, ctx)
+        if j >= 5:
+            S = parse_state(s.kv)
+            qv = val(o.kv['quantile'])
+            if isinstance(qv, float):
+                observed.append((j, qv))
+            if j == 5:
+                J.check_init(p, xs[:5], S, c, ctx)
+            elif prev is not None and prev[0] == j - 1:
+                if J.conformance(p, prev[1], xs[j - 1], S, o.kv, c, ctx):
+                    if S.q[1:4] != prev[1].q[1:4]:
+                        changed_after5 = True
+            prev = (j, S)
+    J.lockstep(p, xs, observed, c, '(%s stream)' % kind)
+    J.r5.count('streams')
+    J.r15.count('streams')
+    J.r15.count('streams_%s' % kind)
+    if p in (0.0, 1.0):
+        J.r15.count('streams_p_extreme')
+    if changed_after5:
+        J.r5.distinct.add(c.key())
+    J.r15.distinct.add(c.key())
+    if len(J.r5.samples) < 2 and 7 <= len(xs) <= 9 and changed_after5:
+        J.r5.sample({'p': p, 'kind': kind, 'stream': xs, 'program': c.ops[:8] + ['...'],
+                     'final_state': str(prev[1]) if prev else None})
+    if len(J.r15.samples) < 2 and 7 <= len(xs) <= 9:
+        J.r15.sample({'p': p, 'kind': kind, 'stream': xs,
+                      'final_observation': {k: common.show(v) for k, v in o_by[marks[-1][0]].kv.items()} if marks[-1][0] in o_by else None})
+
+
 def stream_shard(desc):
     """Random streams with a dense state dump after every add (n <= dense) or in windows."""
     rng = random.Random(desc['seed'])
@@ -282,55 +334,7 @@ def stream_shard(desc):
         if recs is None:
             J.r5.inconclusive.append('case %s missing' % c.id)
             continue
-        for r in recs:
-            if r.kind in ('p', 'e', 'd'):
-                for R, P in ((J.r5, 'C05'), (J.r15, 'C15')):
-                    R.violation(P, 'Quantile:%s' % ('panic' if r.kind == 'p' else 'harness'),
-                                'Quantile(p=%r) %s stream: op %d -> %s %s' % (p, kind, r.op, r.kind, r.rest), c, desc['variant'])
-        o_by = {r.op: r for r in recs if r.kind == 'o'}
-        s_by = {r.op: r for r in recs if r.kind == 's'}
-        prev = None   # (j, State)
-        observed = []
-        mn = mx = None
-        upto = 0
-        changed_after5 = False
-        for opi, j in marks:
-            o, s = o_by.get(opi), s_by.get(opi)
-            if o is None or s is None:
-                continue
-            for x in xs[upto:j]:
-                mn = x if mn is None else min(mn, x)
-                mx = x if mx is None else max(mx, x)
-            upto = j
-            ctx = '(%s stream, after %d observations)' % (kind, j)
-            J.invariants(p, o.kv, s.kv, j, mn, mx, c, ctx)
-            if j >= 5:
-                S = parse_state(s.kv)
-                qv = val(o.kv['quantile'])
-                if isinstance(qv, float):
-                    observed.append((j, qv))
-                if j == 5:
-                    J.check_init(p, xs[:5], S, c, ctx)
-                elif prev is not None and prev[0] == j - 1:
-                    if J.conformance(p, prev[1], xs[j - 1], S, o.kv, c, ctx):
-                        if S.q[1:4] != prev[1].q[1:4]:
-                            changed_after5 = True
-                prev = (j, S)
-        J.lockstep(p, xs, observed, c, '(%s stream)' % kind)
-        J.r5.count('streams')
-        J.r15.count('streams')
-        J.r15.count('streams_%s' % kind)
-        if p in (0.0, 1.0):
-            J.r15.count('streams_p_extreme')
-        if changed_after5:
-            J.r5.distinct.add(c.key())
-        J.r15.distinct.add(c.key())
-        if len(J.r5.samples) < 2 and 7 <= len(xs) <= 9 and changed_after5:
-            J.r5.sample({'p': p, 'kind': kind, 'stream': xs, 'program': c.ops[:8] + ['...'],
-                         'final_state': str(prev[1]) if prev else None})
-        if len(J.r15.samples) < 2 and 7 <= len(xs) <= 9:
-            J.r15.sample({'p': p, 'kind': kind, 'stream': xs,
-                          'final_observation': {k: common.show(v) for k, v in o_by[marks[-1][0]].kv.items()} if marks[-1][0] in o_by else None})
+        judge_stream_case(J, c, p, xs, marks, kind, recs)
     for a, b, ma, mb, p, xs, kind in mirror:
         ra, rb = logs.get(a.id), logs.get(b.id)
         if ra is None or rb is None:
@@ -353,6 +357,44 @@ def stream_shard(desc):
     return J.r5, J.r15
 
 
+def judge_trie_case(J, c, p, alphabet, prefix, recs):
+    pre = [alphabet[i] for i in prefix]
+    stack = {}   # path -> (State or None)
+    for r in recs:
+        if r.kind in ('p', 'e', 'd'):
+            for R, P in ((J.r5, 'C05'), (J.r15, 'C15')):
+                R.violation(P, 'Quantile:%s' % ('panic' if r.kind == 'p' else 'harness'),
+                            'Quantile(p=%r) trie over %r: %s' % (p, alphabet, r.rest), c, J.variant)
+            continue
+        if r.kind != 't':
+            continue
+        path = '' if r.rest == '-' else r.rest
+        xs = pre + [alphabet[int(ch, 36)] for ch in path]
+        j = len(xs)
+        ctx = '(stream %r)' % xs
+        mn, mx = (min(xs), max(xs)) if xs else (None, None)
+        J.invariants(p, r.kv, r.kv if j >= 5 else None, j, mn, mx, c, ctx)
+        J.r5.count('trie_nodes')
+        J.r15.count('trie_nodes')
+        S = None
+        if j >= 5:
+            S = parse_state(r.kv)
+            if j == 5:
+                J.check_init(p, xs, S, c, ctx)
+            else:
+                par = stack.get(path[:-1])
+                if par is not None:
+                    if J.conformance(p, par, xs[-1], S, r.kv, c, ctx):
+                        if S.q[1:4] != par.q[1:4]:
+                            J.r5.distinct.add(hash((f2h(p), tuple(f2h(x) for x in xs))))
+            J.r15.distinct.add(hash((f2h(p), tuple(f2h(x) for x in xs))))
+        stack[path] = S
+        # drop deeper siblings' states that can no longer be parents (DFS order)
+        if len(stack) > 4096:
+            keep = {path[:i] for i in range(len(path) + 1)}
+            stack = {k2: v for k2, v in stack.items() if k2 in keep}
+
+
 def trie_shard(desc):
     """Trie-exhaustive streams: prefix (given) + DFS in the driver."""
     J = Judge(desc['variant'])
@@ -370,41 +412,7 @@ def trie_shard(desc):
         if recs is None:
             J.r5.inconclusive.append('case %s missing' % c.id)
             continue
-        pre = [alphabet[i] for i in prefix]
-        stack = {}   # path -> (State or None)
-        for r in recs:
-            if r.kind in ('p', 'e', 'd'):
-                for R, P in ((J.r5, 'C05'), (J.r15, 'C15')):
-                    R.violation(P, 'Quantile:%s' % ('panic' if r.kind == 'p' else 'harness'),
-                                'Quantile(p=%r) trie over %r: %s' % (p, alphabet, r.rest), c, desc['variant'])
-                continue
-            if r.kind != 't':
-                continue
-            path = '' if r.rest == '-' else r.rest
-            xs = pre + [alphabet[int(ch, 36)] for ch in path]
-            j = len(xs)
-            ctx = '(stream %r)' % xs
-            mn, mx = (min(xs), max(xs)) if xs else (None, None)
-            J.invariants(p, r.kv, r.kv if j >= 5 else None, j, mn, mx, c, ctx)
-            J.r5.count('trie_nodes')
-            J.r15.count('trie_nodes')
-            S = None
-            if j >= 5:
-                S = parse_state(r.kv)
-                if j == 5:
-                    J.check_init(p, xs, S, c, ctx)
-                else:
-                    par = stack.get(path[:-1])
-                    if par is not None:
-                        if J.conformance(p, par, xs[-1], S, r.kv, c, ctx):
-                            if S.q[1:4] != par.q[1:4]:
-                                J.r5.distinct.add(hash((f2h(p), tuple(f2h(x) for x in xs))))
-                J.r15.distinct.add(hash((f2h(p), tuple(f2h(x) for x in xs))))
-            stack[path] = S
-            # drop deeper siblings' states that can no longer be parents (DFS order)
-            if len(stack) > 4096:
-                keep = {path[:i] for i in range(len(path) + 1)}
-                stack = {k2: v for k2, v in stack.items() if k2 in keep}
+        judge_trie_case(J, c, p, alphabet, prefix, recs)
     return J.r5, J.r15
 
 
@@ -431,3 +439,21 @@ def ctor_shard(desc):
             r.violation('C15', 'Quantile.new:%s' % ('rejects-valid-p' if valid else 'accepts-invalid-p'),
                         'Quantile::new(%r) %s' % (p, 'panicked' if panicked else 'did not panic'), c, desc['variant'])
     return r
+
+
+def rejudge_quantile(case, recs, variant):
+    """Re-judge one Quantile case (stream or trie) from its program.  -> Judge"""
+    J = Judge(variant)
+    p = case.params[0] if case.params else 0.5
+    if any(o.startswith('T ') for o in case.ops):
+        judge_trie_case(J, case, p, case.meta['alphabet'], case.meta['prefix'], recs)
+        return J
+    xs, marks = [], []
+    for i, o in enumerate(case.ops):
+        t = o.split()
+        if t[0] == 'A':
+            xs.extend(h2f(x) for x in t[2:])
+        elif t[0] in ('O', 'OS'):
+            marks.append((i, len(xs)))
+    judge_stream_case(J, case, p, xs, marks, case.meta.get('kind', 'replay'), recs)
+    return J
